@@ -12,6 +12,7 @@ Log == ndJsonDeserialize(IOEnv.TRACE_FILE)
 
 \* clauses: sequence of <<name, holds>>
 Report(id, clauses) ==
+  IF clauses = <<>> THEN PrintT("UNJUDGED " \o id) ELSE
   \A i \in 1..Len(clauses) : IF clauses[i][2] THEN TRUE ELSE PrintT("MISMATCH " \o id \o " " \o clauses[i][1])
 
 Consumed == PrintT("CONSUMED " \o ToString(TLCGet("stats").diameter - 1))
